@@ -581,7 +581,7 @@ theorem F9_witness :
         (splitOn '.' "a.*.example.com".toList).reverse = true ∧
     ¬ Glob "https://a.*.example.com".toList oEvil ∧
     matchSubdomain oEvil "https://a.*.example.com".toList = false ∧
-    serve ⟨["https://a.*.example.com".toList], true, false⟩ ⟨false, [oEvil]⟩
+    serve ⟨["https://a.*.example.com".toList], true, false, [star]⟩ ⟨false, [oEvil]⟩
       = ⟨401, false, none, false, [varyOrigin]⟩ := by
   refine ⟨by decide, ?_, by decide, by decide⟩
   intro h
@@ -590,17 +590,17 @@ theorem F9_witness :
   decide
 
 -- the legitimate reading of that entry still works, through the compiled pattern
-example : serve ⟨["https://a.*.example.com".toList], true, false⟩ ⟨false, ["https://a.b.example.com".toList]⟩
+example : serve ⟨["https://a.*.example.com".toList], true, false, [star]⟩ ⟨false, ["https://a.b.example.com".toList]⟩
     = ⟨200, true, some "https://a.b.example.com".toList, true, [varyOrigin]⟩ := by decide
 -- preflight from an allowed and from a disallowed origin
-example : serve ⟨["https://*.example.com".toList], false, false⟩ ⟨true, [oGood]⟩
+example : serve ⟨["https://*.example.com".toList], false, false, [star]⟩ ⟨true, [oGood]⟩
     = ⟨204, false, some oGood, false, varyOrigin :: varyPreflight⟩ := by decide
-example : serve ⟨["https://*.example.com".toList], false, false⟩ ⟨true, ["https://example.org".toList]⟩
+example : serve ⟨["https://*.example.com".toList], false, false, [star]⟩ ⟨true, ["https://example.org".toList]⟩
     = ⟨204, false, none, false, [varyOrigin]⟩ := by decide
 -- `*` entry: value `*`, unless the unsafe flag echoes the origin
-example : (serve ⟨[star], true, false⟩ ⟨false, [oEvil]⟩).acao = some star ∧
-    (serve ⟨[star], true, true⟩ ⟨false, [oEvil]⟩).acao = some oEvil ∧
-    (serve ⟨[], false, false⟩ ⟨false, [oEvil]⟩).acao = some star := by decide
+example : (serve ⟨[star], true, false, [star]⟩ ⟨false, [oEvil]⟩).acao = some star ∧
+    (serve ⟨[star], true, true, [star]⟩ ⟨false, [oEvil]⟩).acao = some oEvil ∧
+    (serve ⟨[], false, false, [star]⟩ ⟨false, [oEvil]⟩).acao = some star := by decide
 -- `?` and a wildcard in the scheme and the port, regexp metacharacters literal
 example : glob "http?://a+b.example.com:80?0".toList "https://a+b.example.com:8080".toList = true ∧
     glob "http?://a+b.example.com:80?0".toList "https://aab.example.com:8080".toList = false ∧
@@ -640,8 +640,8 @@ theorem C11_invalid_entry_dropped (cfg : Cfg) (p : Str) (h : compiles p = false)
 theorem compiles_needed :
     let p : Str := "https://".toList ++ [Char.ofNat 0xff] ++ "*.c".toList
     let o : Str := "https://".toList ++ [Char.ofNat 0xff] ++ "a.c".toList
-    glob p o = true ∧ compiles p = false ∧ allowOrigin ⟨[p], false, false⟩ o = [] ∧
-    (serve ⟨[p], false, false⟩ ⟨false, [o]⟩).status = 401 := by decide
+    glob p o = true ∧ compiles p = false ∧ allowOrigin ⟨[p], false, false, [star]⟩ o = [] ∧
+    (serve ⟨[p], false, false, [star]⟩ ⟨false, [o]⟩).status = 401 := by decide
 
 /-! ## round 4: the complete middleware (`serveFull`) -/
 
@@ -653,7 +653,7 @@ def rAllowOf (fr : FReq) : Str := if fr.core.preflight then fr.routerAllow else 
 def allowHdrOf (fr : FReq) : Option Str := if rAllowOf fr = [] then none else some (rAllowOf fr)
 def acamOf (fc : Full) (fr : FReq) : Str :=
   if fc.methods = [] ∧ rAllowOf fr ≠ [] then rAllowOf fr
-  else joinComma (if fc.methods = [] then defaultMethods else fc.methods)
+  else joinComma (if fc.methods = [] then fc.dfltMethods else fc.methods)
 def acahOf (fc : Full) (fr : FReq) : Option Str :=
   if joinComma fc.headers ≠ [] then some (joinComma fc.headers)
   else if fr.reqHeaders ≠ [] then some fr.reqHeaders else none
@@ -905,11 +905,12 @@ theorem maxAgeStr_neg (n : Int) (h : n < 0) : maxAgeStr n = ['0'] := by
 
 /-- **C11_allow_methods** — on a granted preflight Access-Control-Allow-Methods is the router's
     Allow value exactly when `AllowMethods` was left empty and the router provided one; otherwise
-    the configured list (the default list when empty), joined with commas. -/
+    the configured list (when empty: `DefaultCORSConfig.AllowMethods` as it was when the constructor ran), joined
+    with commas. -/
 theorem C11_allow_methods (fc : Full) (fr : FReq) (hs : fr.skip = false) (hp : fr.core.preflight = true)
     (hg : (serveFull fc fr).core.acao ≠ none) :
     (serveFull fc fr).acam = some (if fc.methods = [] ∧ fr.routerAllow ≠ [] then fr.routerAllow
-      else joinComma (if fc.methods = [] then defaultMethods else fc.methods)) ∧
+      else joinComma (if fc.methods = [] then fc.dfltMethods else fc.methods)) ∧
     (serveFull fc fr).allow = (if fr.routerAllow = [] then none else some fr.routerAllow) := by
   have hor : fr.core.origins.headD [] = fr.origin := rfl
   unfold serveFull at hg ⊢
@@ -950,8 +951,8 @@ theorem C11_ctor_default (fr : FReq) (hs : fr.skip = false) (ho : fr.origin ≠ 
 
 -- non-vacuity of the round-4 statements
 def fGood : Str → FRes := fun o => if o = oGood then .allow else if o = oEvil then .err 403 else .deny
-def fullDemo : Full := ⟨⟨["https://unrelated.test".toList], true, false⟩, some fGood, [], ["X-A".toList, "X-B".toList],
-  ["X-E".toList], -5⟩
+def fullDemo : Full := ⟨⟨["https://unrelated.test".toList], true, false, [star]⟩, some fGood, [], ["X-A".toList, "X-B".toList],
+  ["X-E".toList], -5, defaultMethods⟩
 -- AllowOriginFunc replaces the allow-list; preflight headers; negative MaxAge sent as 0; router Allow used
 example : serveFull fullDemo ⟨⟨true, [oGood]⟩, false, "OPTIONS, GET".toList, "X-Req".toList⟩ =
     ⟨⟨204, false, some oGood, true, varyOrigin :: varyPreflight⟩, some "OPTIONS, GET".toList,
@@ -966,7 +967,7 @@ example : serveFull fullDemo ⟨⟨false, [oGood]⟩, false, [], []⟩ =
     serveFull fullDemo ⟨⟨true, [oEvil]⟩, true, "OPTIONS, GET".toList, []⟩ = noHeaders ⟨200, true, none, false, []⟩ none := by
   decide
 -- CORSWithConfig(CORSConfig{}) takes the router's Allow, CORS() does not; Request-Headers echoed
-example : (serveFull ⟨⟨[], false, false⟩, none, [], [], [], 0⟩ ⟨⟨true, [oGood]⟩, false, "OPTIONS, GET".toList, "X-Req".toList⟩).acam
+example : (serveFull ⟨⟨[], false, false, [star]⟩, none, [], [], [], 0, defaultMethods⟩ ⟨⟨true, [oGood]⟩, false, "OPTIONS, GET".toList, "X-Req".toList⟩).acam
       = some "OPTIONS, GET".toList ∧
     (serveFull defaultFull ⟨⟨true, [oGood]⟩, false, "OPTIONS, GET".toList, "X-Req".toList⟩).acam
       = some "GET,HEAD,PUT,PATCH,POST,DELETE".toList ∧
@@ -1105,7 +1106,7 @@ theorem C11_stack_grants_from_instance (fr : FReq) : ∀ ls : List Layer,
 
 -- non-vacuity: CORS() on the root, a strict instance inside; the evil origin is stopped by the inner
 -- one (and the 401 still carries the outer `*`), the listed origin passes both and gets the inner grant
-def strictLayer : Layer := ⟨⟨⟨["https://a.b.example.com".toList], true, false⟩, none, [], [], [], 0⟩, false, []⟩
+def strictLayer : Layer := ⟨⟨⟨["https://a.b.example.com".toList], true, false, [star]⟩, none, [], [], [], 0, defaultMethods⟩, false, []⟩
 def rootLayer : Layer := ⟨defaultFull, false, []⟩
 example : serveStack ⟨⟨false, [oEvil]⟩, false, [], []⟩ [rootLayer, strictLayer] =
     ⟨⟨401, false, some star, false, [varyOrigin, varyOrigin]⟩, none, none, none, none, none⟩ := by decide
@@ -1173,7 +1174,7 @@ theorem C11_req_origin_verbatim (method : Str) (headers : List (Str × Str)) :
 
 -- the spellings are different origins for the model, as for the code
 example :
-    let cfg : Cfg := ⟨["https://app.example.com".toList, "https://*.example.org".toList], true, false⟩
+    let cfg : Cfg := ⟨["https://app.example.com".toList, "https://*.example.org".toList], true, false, [star]⟩
     allowOrigin cfg "https://app.example.com:443".toList = [] ∧ allowOrigin cfg "https://app.example.com.".toList = [] ∧
     allowOrigin cfg "https://a.example.org:443".toList = [] ∧
     allowOrigin cfg "https://app.example.com".toList = "https://app.example.com".toList := by decide
@@ -1252,5 +1253,225 @@ example : serveEntry ⟨some 202, some star, false, [varyOrigin]⟩ ⟨⟨false,
       = ⟨401, false, some star, false, [varyOrigin]⟩ ∧
     (serveEntry ⟨none, some star, false, []⟩ ⟨⟨false, [oGood]⟩, false, [], []⟩ [strictLayer]).core
       = ⟨200, true, some oGood, true, [varyOrigin]⟩ := by decide
+
+/-! ## round 8: the package variable `DefaultCORSConfig` and the order of the set-up calls
+
+`setup d ops` is the list of instances on the request's path after the script `ops`, started while the
+variable holds `d`.  The statements: an instance is determined by the value the variable holds WHEN ITS
+constructor is called — not by any constructor call before it (no "built once" memory), not by any
+assignment after it; and the configuration in force of `CORS()` is the variable's, so every earlier
+soundness statement applies with the variable's list. -/
+
+theorem current_append (d : Defaults) (a b : List SetupOp) :
+    current d (a ++ b) = current (current d a) b := by
+  induction a generalizing d with
+  | nil => rfl
+  | cons op r ih => cases op <;> simp [current, ih]
+
+theorem setup_append (d : Defaults) (a b : List SetupOp) :
+    setup d (a ++ b) = setup d a ++ setup (current d a) b := by
+  induction a generalizing d with
+  | nil => rfl
+  | cons op r ih =>
+    cases op with
+    | assign d' => simp [setup, current, ih]
+    | call keep k => cases keep <;> simp [setup, current, ih]
+
+/-- **C11_setup_no_memory** — the instances on the path after a script: whatever was assigned and
+    whichever constructors were called before (`pre`) or afterwards (`post`), a kept constructor call
+    yields exactly `k.build` of the value the variable holds at that moment (`current d pre`: the last
+    value assigned before the call, `d` when there was none), in its place on the path. -/
+theorem C11_setup_no_memory (d : Defaults) (pre post : List SetupOp) (k : Call) :
+    setup d (pre ++ .call true k :: post)
+      = setup d pre ++ k.build (current d pre) :: setup (current d pre) post := by
+  rw [setup_append]; simp [setup]
+
+/-- the value of the variable is the last one assigned; constructor calls do not touch it -/
+theorem current_assign_last (d d' : Defaults) (pre post : List SetupOp)
+    (hpost : ∀ op ∈ post, ∃ keep k, op = .call keep k) :
+    current d (pre ++ .assign d' :: post) = d' := by
+  rw [current_append]
+  simp only [current]
+  induction post generalizing d' with
+  | nil => rfl
+  | cons op r ih =>
+    obtain ⟨keep, k, rfl⟩ := hpost op (by simp)
+    simp only [current]
+    exact ih d' (fun o ho => hpost o (by simp [ho]))
+
+def SetupOp.isDroppedCall : SetupOp → Bool
+  | .call false _ => true
+  | _ => false
+
+/-- **C11_setup_dropped_calls_irrelevant** — constructor calls whose instance is not on the path (an
+    earlier `CORS()` of a library, of another group, of another Echo) can be deleted from the script:
+    they leave nothing behind. -/
+theorem C11_setup_dropped_calls_irrelevant (d : Defaults) (ops : List SetupOp) :
+    setup d (ops.filter (fun op => !op.isDroppedCall)) = setup d ops := by
+  induction ops generalizing d with
+  | nil => rfl
+  | cons op r ih =>
+    cases op with
+    | assign d' =>
+      have : (SetupOp.assign d' :: r).filter (fun op => !op.isDroppedCall)
+          = .assign d' :: r.filter (fun op => !op.isDroppedCall) := by simp [List.filter, SetupOp.isDroppedCall]
+      rw [this]; simp only [setup]; exact ih d'
+    | call keep k =>
+      cases keep with
+      | false =>
+        have : (SetupOp.call false k :: r).filter (fun op => !op.isDroppedCall)
+            = r.filter (fun op => !op.isDroppedCall) := by simp [List.filter, SetupOp.isDroppedCall]
+        rw [this]; simp only [setup]; exact ih d
+      | true =>
+        have : (SetupOp.call true k :: r).filter (fun op => !op.isDroppedCall)
+            = .call true k :: r.filter (fun op => !op.isDroppedCall) := by simp [List.filter, SetupOp.isDroppedCall]
+        rw [this]; simp only [setup, if_true]; rw [ih d]
+
+/-- **C11_setup_late_assignment_irrelevant** — assignments after the last constructor call do not
+    reach the instances already built. -/
+theorem C11_setup_late_assignment_irrelevant (d : Defaults) (ops late : List SetupOp)
+    (hl : ∀ op ∈ late, ∃ d', op = .assign d') : setup d (ops ++ late) = setup d ops := by
+  rw [setup_append]
+  suffices h : ∀ (e : Defaults), setup e late = [] by simp [h]
+  intro e
+  induction late generalizing e with
+  | nil => rfl
+  | cons op r ih =>
+    obtain ⟨d', rfl⟩ := hl op (by simp)
+    simp only [setup]
+    exact ih (fun o ho => hl o (by simp [ho])) d'
+
+/-- **C11_variable_in_force** — what the two constructors take from the variable's value `d`:
+    `CORS()` everything; `CORSWithConfig(fc)` the allow-list when its own is empty, the method list when
+    its own is empty (then not "custom"), nothing else. -/
+theorem C11_variable_in_force (d : Defaults) (fc : Full) :
+    effOrigins (corsDefault d).core = d.origins ∧ (corsDefault d).core.creds = d.creds ∧
+    (corsDefault d).core.unsafeWild = d.unsafeWild ∧ (corsDefault d).func = d.func ∧
+    (corsDefault d).methods = d.methods ∧ (corsDefault d).expose = d.expose ∧
+    (corsDefault d).headers = d.headers ∧ (corsDefault d).maxAge = d.maxAge ∧
+    effOrigins (withConfig d fc).core = (if fc.core.origins = [] then d.origins else fc.core.origins) ∧
+    (withConfig d fc).core.creds = fc.core.creds ∧ (withConfig d fc).core.unsafeWild = fc.core.unsafeWild ∧
+    (withConfig d fc).func = fc.func ∧ (withConfig d fc).methods = fc.methods ∧
+    (withConfig d fc).dfltMethods = d.methods := by
+  refine ⟨?_, rfl, rfl, rfl, rfl, rfl, rfl, rfl, rfl, rfl, rfl, rfl, rfl, rfl⟩
+  simp only [corsDefault, withConfig, Defaults.asConfig, effOrigins]
+  exact ite_self _
+
+/-- under the value the package is shipped with the constructors are the ones of the earlier rounds -/
+theorem C11_pristine (fc : Full) (ho : fc.core.dfltOrigins = [star]) (hm : fc.dfltMethods = defaultMethods) :
+    corsDefault pristine = defaultFull ∧ withConfig pristine fc = fc := by
+  refine ⟨rfl, ?_⟩
+  cases fc with
+  | mk core f m h e a dm =>
+    cases core with
+    | mk o c u dd =>
+      simp only at ho hm
+      subst ho hm
+      rfl
+
+/-- **C11_variable_acao_sound** — `CORS()` called while the variable holds `d` (no `AllowOriginFunc` in
+    it): Access-Control-Allow-Origin only for an origin `d.origins` allows — the list at the time of
+    THIS call —, value `*` or the Origin verbatim; credentials only when `d.creds`. -/
+theorem C11_variable_acao_sound (d : Defaults) (fr : FReq) (v : Str) (hf : d.func = none)
+    (hv : ValidOrigin fr.origin) (hp : ∀ p ∈ d.origins, PatScheme p)
+    (h : (serveFull (corsDefault d) fr).core.acao = some v) :
+    ((v = star ∧ star ∈ d.origins) ∨ v = fr.origin) ∧ Allowed d.origins fr.origin := by
+  have he := (C11_variable_in_force d (corsDefault d)).1
+  have := C11_full_acao_sound (corsDefault d) fr v hf hv (by rw [he]; exact hp) h
+  rwa [he] at this
+
+theorem C11_variable_credentials (d : Defaults) (fr : FReq)
+    (h : (serveFull (corsDefault d) fr).core.acac = true) : d.creds = true :=
+  (C11_full_credentials (corsDefault d) fr h).1
+
+/-- **C11_setup_disallowed_blocked** — the statement the "default middleware is built once" shortcut
+    breaks: after ANY script, if an instance on the path was made by `CORS()` while the variable held a
+    value whose list does not allow the request's Origin (its Skipper not skipping, no `AllowOriginFunc`),
+    the request does not reach the handler — whatever `CORS()` / `CORSWithConfig` calls came before under
+    more permissive values, whatever is on the path besides, whatever the response state at entry. -/
+theorem C11_setup_disallowed_blocked (en : Entry) (d0 : Defaults) (pre post : List SetupOp) (k : Call) (fr : FReq)
+    (hk : k.ctor = 1) (hs : (current d0 pre).skip = false) (hf : (current d0 pre).func = none)
+    (hv : ValidOrigin fr.origin) (hp : ∀ p ∈ (current d0 pre).origins, PatScheme p)
+    (hna : ¬ Allowed (current d0 pre).origins fr.origin) :
+    (serveEntry en fr (setup d0 (pre ++ .call true k :: post))).core.ran = false := by
+  have he := (C11_variable_in_force (current d0 pre) (corsDefault (current d0 pre))).1
+  have hb : k.build (current d0 pre) = ⟨corsDefault (current d0 pre), (current d0 pre).skip, k.routerAllow⟩ := by
+    simp [Call.build, hk]
+  apply C11_entry_disallowed_blocked en fr _ (k.build (current d0 pre))
+  · rw [C11_setup_no_memory]; simp
+  · rw [hb]; exact hs
+  · rw [hb]; exact hf
+  · exact hv
+  · rw [hb]; simp only; rw [he]; exact hp
+  · rw [hb]; simp only; rw [he]; exact hna
+
+/-- the same for `CORSWithConfig(fc)` with a list of its own: the variable's list does not matter -/
+theorem C11_setup_own_list_blocked (en : Entry) (d0 : Defaults) (pre post : List SetupOp) (k : Call) (fr : FReq)
+    (hk : k.ctor ≠ 1) (hs : k.ownSkip.getD (current d0 pre).skip = false) (hf : k.cfg.func = none)
+    (hne : k.cfg.core.origins ≠ [])
+    (hv : ValidOrigin fr.origin) (hp : ∀ p ∈ k.cfg.core.origins, PatScheme p)
+    (hna : ¬ Allowed k.cfg.core.origins fr.origin) :
+    (serveEntry en fr (setup d0 (pre ++ .call true k :: post))).core.ran = false := by
+  have he : effOrigins (withConfig (current d0 pre) k.cfg).core = k.cfg.core.origins := by
+    rw [(C11_variable_in_force (current d0 pre) k.cfg).2.2.2.2.2.2.2.2.1]; simp [hne]
+  have hb : k.build (current d0 pre)
+      = ⟨withConfig (current d0 pre) k.cfg, k.ownSkip.getD (current d0 pre).skip, k.routerAllow⟩ := by
+    simp [Call.build, hk]
+  apply C11_entry_disallowed_blocked en fr _ (k.build (current d0 pre))
+  · rw [C11_setup_no_memory]; simp
+  · rw [hb]; exact hs
+  · rw [hb]; exact hf
+  · exact hv
+  · rw [hb]; simp only; rw [he]; exact hp
+  · rw [hb]; simp only; rw [he]; exact hna
+
+/-- **C11_empty_lists_allow_nothing** — an instance whose own list AND the variable's list were empty
+    when it was built allows no origin at all: no grant, a non-preflight request with an Origin gets 401. -/
+theorem C11_empty_lists_allow_nothing (fc : Full) (fr : FReq) (hf : fc.func = none) (hs : fr.skip = false)
+    (he : effOrigins fc.core = []) (ho : fr.origin ≠ []) :
+    (serveFull fc fr).core.acao = none ∧ (serveFull fc fr).core.ran = false := by
+  have ha : allowOrigin fc.core fr.origin = [] := by
+    simp [allowOrigin, patterns, he, allowLoop]
+  rw [serveFull_core fc fr hf hs]
+  have hor : fr.core.origins.headD [] = fr.origin := rfl
+  unfold serve
+  simp only [hor, ho, if_false, ha, if_true]
+  cases fr.core.preflight <;> simp
+
+-- non-vacuity: the witness of the missed change.  `CORS()` once under the pristine value (dropped: it sits on
+-- another group), then the application assigns a strict list with credentials and calls `CORS()` again.
+def dStrict : Defaults := ⟨["https://app.example.com".toList], true, false, none, defaultMethods, [], [], 0, false⟩
+def callCORS : Call := ⟨1, ⟨⟨[], false, false, [star]⟩, none, [], [], [], 0, defaultMethods⟩, none, []⟩
+def witnessScript : List SetupOp := [.call false callCORS, .assign dStrict, .call true callCORS]
+example : (serveEntry ⟨none, none, false, []⟩ ⟨⟨false, [oEvil]⟩, false, [], []⟩ (setup pristine witnessScript)).core
+      = ⟨401, false, none, false, [varyOrigin]⟩ ∧
+    (serveEntry ⟨none, none, false, []⟩ ⟨⟨false, ["https://app.example.com".toList]⟩, false, [], []⟩
+        (setup pristine witnessScript)).core
+      = ⟨200, true, some "https://app.example.com".toList, true, [varyOrigin]⟩ := by decide
+-- the hypotheses of C11_setup_disallowed_blocked hold for it
+example : current pristine [.call false callCORS, .assign dStrict] = dStrict ∧
+    ¬ Allowed dStrict.origins oEvil ∧ (∀ p ∈ dStrict.origins, PatScheme p) := by
+  refine ⟨rfl, ?_, ?_⟩
+  · intro h
+    rcases h with h | h | ⟨p, hp, hg⟩
+    · revert h; decide
+    · revert h; decide
+    · have hp' : p = "https://app.example.com".toList := by simpa [dStrict] using hp
+      subst hp'
+      have := (glob_iff _ _).mpr hg
+      revert this; decide
+  · intro p hp
+    have hp' : p = "https://app.example.com".toList := by simpa [dStrict] using hp
+    subst hp'
+    exact PatScheme.of_scheme "https".toList "app.example.com".toList (by decide)
+-- an assignment AFTER the call does not reach the instance; root built under the pristine value, group after the
+-- assignment: two different instances on one path
+example : setup pristine [.call true callCORS, .assign dStrict] = [⟨defaultFull, false, []⟩] ∧
+    setup pristine [.call true callCORS, .assign dStrict, .call true callCORS]
+      = [⟨defaultFull, false, []⟩, ⟨corsDefault dStrict, false, []⟩] := ⟨rfl, rfl⟩
+-- CORSWithConfig(CORSConfig{}) takes the variable's list; when both are empty nothing is allowed
+example : effOrigins (withConfig dStrict callCORS.cfg).core = ["https://app.example.com".toList] ∧
+    (serveFull (withConfig { dStrict with origins := [] } callCORS.cfg) ⟨⟨false, [oGood]⟩, false, [], []⟩).core
+      = ⟨401, false, none, false, [varyOrigin]⟩ := by decide
 
 end C11
